@@ -168,11 +168,11 @@ def run(rep, repo, tier):
     rep.check(hi is not None and hi <= mx, "R5", munit,
               "max()-does-not-enclose",
               "max()=%s but outputs reach %s" % (mx, hi), instance=cfg,
-              facts=facts)
+              observed="max()=%s, outputs reach %s" % (mx, hi), facts=facts)
     rep.check(lo is not None and mn <= lo, "R5", munit,
               "min()-does-not-enclose",
               "min()=%s but outputs reach %s" % (mn, lo), instance=cfg,
-              facts=facts)
+              observed="min()=%s, outputs reach %s" % (mn, lo), facts=facts)
   rep.extra["configuration_points"] = n
   rep.extra["skipped_max_value_below_smallest_code"] = skipped
   rep.require_instances("R1", 150)
